@@ -29,6 +29,15 @@ def isnan(x):
     return x != x
 
 
+class spv(object):
+    """a full list, or the sparse {flat position: value} the driver sends for very large sources"""
+    def __init__(self, v):
+        self.v = v
+
+    def __getitem__(self, f):
+        return self.v[str(f)] if isinstance(self.v, dict) else self.v[f]
+
+
 def smp(ctx, tag, d, limit=1):
     """at most `limit` evidence samples per oracle, so that the 16 sample slots show every kind of case"""
     seen = ctx.__dict__.setdefault("_c06_samples", {})
@@ -508,7 +517,7 @@ def gen_resample(ctx, n):
     out = []
     templates = ["same_proj", "same_proj_nice", "coincident", "cross_proj", "cross_proj", "lonlat_source", "swath_rot", "swath_shear",
                  "swath_jitter", "swath_jitter", "swath_bend", "swath_invalid", "few_neighbours", "small_radius", "reduce_data",
-                 "lonlat_target", "invalid_target", "degree_fan", "integer_data"]
+                 "lonlat_target", "invalid_target", "degree_fan", "integer_data", "long_strip_wide", "long_strip_tall"]
     i = nlay = 0
     while len(out) < n:
         tpl = templates[i % len(templates)] if i < len(templates) else r.choice(templates)
@@ -584,6 +593,26 @@ def gen_resample(ctx, n):
                    "origin": [cx_ - (m[0][0] * (sw - 1) + m[0][1] * (sh - 1)) / 2, cy_ - (m[1][0] * (sw - 1) + m[1][1] * (sh - 1)) / 2],
                    "matrix": m, "orient": 0, "jitter": 0.2, "jitter_seed": r.randrange(10 ** 6)}
             radius = 4 * step
+        elif tpl in ("long_strip_wide", "long_strip_tall"):
+            # more than 65536 columns (lines) and a dozen lines (columns): 20 m lattice in the target's projection; the target is 3 x 90
+            # pixels along the whole strip, so its first and last columns sit at both ends (source indices < 400 and > 65536)
+            tp = "laea"
+            long_n, short_n, step = 66000 + r.randint(0, 400), 12, 20.0
+            cx_, cy_, _ = REGIONS[tp]
+            wide = tpl == "long_strip_wide"
+            sh, sw = (short_n, long_n) if wide else (long_n, short_n)
+            x0, y0 = cx_ - step * (sw - 1) / 2, cy_ + step * (sh - 1) / 2
+            src = {"kind": "swath", "proj": PROJS[tp], "shape": [sh, sw], "origin": [x0, y0], "matrix": [[step, 0.0], [0.0, -step]],
+                   "orient": 0, "jitter_seed": 0}
+            off = r.uniform(0.2, 0.8) * step
+            if wide:
+                th, tw = 3, 90
+                ext = [x0 - step / 2, y0 - 8 * step + off, x0 + (sw - 0.5) * step, y0 - 3 * step + off]
+            else:
+                th, tw = 90, 3
+                ext = [x0 + 3 * step + off, y0 - (sh - 0.5) * step, x0 + 8 * step + off, y0 + step / 2]
+            tgt = {"kind": "area", "proj": PROJS[tp], "shape": [th, tw], "extent": ext}
+            radius, nb = 4 * step, 16
         elif tpl == "lonlat_target":
             tgt = area_spec(r, "longlat", 0.4, (th, tw), False)
             src = {"kind": "cover", "proj": PROJS[r.choice(["laea", "stere", "lcc"])], "cover": tgt, "shape": [sh, sw], "margin": 0.6}
@@ -610,7 +639,7 @@ def gen_resample(ctx, n):
                 src["jitter"] = 0.2
                 src["invalid"] = [[r.randrange(sh), r.randrange(sw)] for _ in range(r.randint(1, 12))]
             radius = 4 * step
-        if src["kind"] in ("swath", "fan"):
+        if src["kind"] in ("swath", "fan") and not tpl.startswith("long_strip"):
             # memory layout of the source lon/lat arrays and of the data: cycle through the non-C layouts first
             src["layout"] = LAYOUTS[nlay % len(LAYOUTS)]
             nlay += 1
@@ -619,6 +648,7 @@ def gen_resample(ctx, n):
             e = tgt["extent"]
             cxr, cyr, hwr = (e[0] + e[2]) / 2, (e[1] + e[3]) / 2, (e[2] - e[0]) / 2
         scale = 1.0 / hwr
+        strip = {"light": True, "chunkings": [[6, 33000] if tpl == "long_strip_wide" else [33000, 6]]} if tpl.startswith("long_strip") else {}
         extra = {"int_dtypes": ["uint8", "uint16", "int16", "float32"], "int_ramp": [250, 2, 1]} if tpl == "integer_data" else {}
         th, tw = tgt["shape"]
         out.append({**extra, "template": tpl, "source": src, "target": tgt, "radius": radius, "neighbours": nb, "reduce_data": reduce_data,
@@ -627,6 +657,8 @@ def gen_resample(ctx, n):
                     "const": 1e12 if i == 4 else r.choice([7.5, -273.15, 1e-3, 300.0, 0.0]),   # i == 4: one ulp of the data > 1e-6
                     "rand_range": r.choice([[-5, 5], [200, 320], [0, 1]]),
                     "chunkings": [[3, 4]], "pixel_sample": sorted(r.sample(range(th * tw), min(th * tw, 40)))})
+        if strip:
+            out[-1].update(strip, pixel_sample=[])
     return out
 
 
@@ -645,7 +677,9 @@ def run(ctx):
                 "imagery) x constant / affine / random fields, 2-D and 3-D, numpy class, legacy functions and xarray class with several data "
                 "chunkings and PYTROLL_CHUNK_SIZE in {default, 4, 7, 4096}; a repeated call on the same resampler object; the lazy xarray "
                 "results of several equally named / unnamed inputs evaluated in one dask.compute vs. alone; swath lon/lat and data arrays "
-                "in Fortran / transposed-view / strided / negative-stride / C memory layouts vs. C-contiguous copies. "
+                "in Fortran / transposed-view / strided / negative-stride / C memory layouts vs. C-contiguous copies; 12 x 66000+ and 66000+ x 12 "
+                "strips (index dtypes) with a target reaching both ends; masked-array data with wildly different hidden values (2-D, 3-D, "
+                "legacy, fill 0). "
                 "A case is NON-TRIVIAL when it reaches the interesting branch: a non-NaN (t, s) for kernels, a non-NaN result for scalar "
                 "kernels, at least one found corner, a target with an invalid pixel for scattering, at least one produced pixel for a "
                 "resampler case; every look-up / clip / xarray case counts. DISTINCT = distinct canonical inputs (float.hex of all arguments, "
@@ -658,7 +692,7 @@ def run(ctx):
     resk = gen_resample_k(ctx, ctx.n(200, 2000))
     corners = gen_corners(ctx, ctx.n(150, 1500))
     slices = gen_slices(ctx, ctx.n(100, 1000))
-    rcases = gen_resample(ctx, ctx.n(19, 114))
+    rcases = gen_resample(ctx, ctx.n(21, 126))
     limits = gen_limit(ctx, ctx.n(60, 600))
     scatters = gen_scatter(ctx, ctx.n(80, 800))
 
@@ -961,18 +995,22 @@ def check_resamplers(ctx, cases, obs, texts):
             continue
         W = o["shape_src"][1]
         n = len(o["ox"])
-        sx, sy = o["sx"], o["sy"]
+        sx, sy = spv(o["sx"]), spv(o["sy"])
+        o["data"] = {k_: spv(v_) for k_, v_ in o["data"].items()}
+        msrc = spv(o["mask_src"])
         res = o["np"]
         vout = o["valid_out"]
         if len(vout) != n:
             ctx.count("resample:target_with_invalid_pixels")
             inv = set(range(n)) - set(vout)
             for k_, v_ in res.items():
+                if k_ == "masked:fill0":
+                    continue            # fill value 0: the pixels without lon/lat hold the fill value
                 nb_ = len(v_) // n
                 if any(not isnan(v_[b * n + i]) for b in range(nb_) for i in inv):
                     ctx.add_failure("C06.value_at_invalid_target_pixel", "%s field: a target pixel without lon/lat got a value" % k_, rp)
         d_aff, d_rnd, d_const = o["data"]["affine"], o["data"]["random"], o["data"]["const"]
-        rng_aff = (max(d_aff) - min(d_aff)) or 1.0
+        rng_aff = (o["affine_range"][1] - o["affine_range"][0]) or 1.0
         c0, cx, cy = c["affine"]
         xc, yc = c["centre"]
         produced = sur_n = 0
@@ -981,6 +1019,25 @@ def check_resamplers(ctx, cases, obs, texts):
             t, s = o["t"][j], o["s"][j]
             vals = {k: res[k][i] for k in ("const", "affine", "random")}
             flat = [ly * W + lx for ly, lx in zip(o["slices_y"][j], o["slices_x"][j])]
+            if flat != o["corner_flat"][j]:
+                ctx.add_failure("C06.slices.pipeline", "%s (source %s): target pixel %d: the look-up tables address source (line, column) %s, the corner "
+                                "indices refer to %s" % (tpl, o["shape_src"], i, list(zip(o["slices_y"][j], o["slices_x"][j])),
+                                                          [divmod(f, W) for f in o["corner_flat"][j]]), dict(rp, pixel=i))
+                continue
+            # masked-array input: a masked corner never contributes; without masked corners the result is that of the plain data
+            for mk in [k_ for k_ in res if k_.startswith("masked:")]:
+                v = res[mk][i]
+                hit = any(msrc[f] for f in flat)
+                want_ = NAN if hit or isnan(res["random"][i]) else res["random"][i]
+                if mk == "masked:fill0" and not hit and isnan(res["random"][i]):
+                    want_ = 0.0
+                if not same(v, want_):
+                    ctx.add_failure("C06.masked_input", "%s: %s: target pixel %d gets %r from masked-array data; its corner pixels %s have mask %s and "
+                                    "visible/hidden values %s; required %r (a masked corner must not contribute)" % (
+                                        tpl, mk, i, v, flat, [msrc[f] for f in flat], [o["data"]["random"][f] for f in flat], want_), dict(rp, pixel=i))
+            if "masked:3d" in res and not same(res["masked:3d"][n + i], res["affine"][i]):
+                ctx.add_failure("C06.masked_input", "%s: the unmasked band of 3-D masked data gives %r at pixel %d, plain data %r" % (
+                    tpl, res["masked:3d"][n + i], i, res["affine"][i]), dict(rp, pixel=i))
             if isnan(t) or isnan(s):
                 for k, v in vals.items():
                     if not isnan(v):
@@ -1051,7 +1108,7 @@ def check_resamplers(ctx, cases, obs, texts):
         for b, k in enumerate(("const", "affine", "random")):
             if not all(same(a, bb) for a, bb in zip(st[b * n:(b + 1) * n], res[k])):
                 ctx.add_failure("C06.3d_vs_2d", "band %d of the 3-D result differs from the 2-D result of the %s field" % (b, k), rp)
-        if not all(same(a, bb) for a, bb in zip(res["resample_api"], res["random"])):
+        if "resample_api" in res and not all(same(a, bb) for a, bb in zip(res["resample_api"], res["random"])):
             ctx.add_failure("C06.resample_api", "NumpyBilinearResampler.resample differs from get_bil_info + get_sample_from_bil_info", rp)
         # memory layout independence: the same logical lon/lat and data arrays as C-contiguous copies give the same result
         lay_ = c["source"].get("layout", "C")
